@@ -75,11 +75,20 @@ func ReadWithDirectory(r io.ReaderAt, size int64, cd []byte) (*Directory, error)
 	dirLoc := size - int64(len(cd))
 	files := make([]*File, 0)
 	for {
+		if len(cd) < 4 {
+			return nil, errors.New("truncated zip central directory")
+		}
 		if binary.LittleEndian.Uint32(cd) != directoryHeaderSignature {
 			break
 		}
 		var hdr zipCentralDir
-		_ = binary.Read(bytes.NewReader(cd), binary.LittleEndian, &hdr)
+		if err := binary.Read(bytes.NewReader(cd), binary.LittleEndian, &hdr); err != nil {
+			return nil, errors.New("truncated zip central directory")
+		}
+		rawLen := directoryHeaderLen + int(hdr.FilenameLen) + int(hdr.ExtraLen) + int(hdr.CommentLen)
+		if len(cd) < rawLen {
+			return nil, errors.New("truncated zip central directory")
+		}
 		f := &File{
 			CreatorVersion:   hdr.CreatorVersion,
 			ReaderVersion:    hdr.ReaderVersion,
@@ -97,7 +106,7 @@ func ReadWithDirectory(r io.ReaderAt, size int64, cd []byte) (*Directory, error)
 			r:  r,
 			rs: size,
 		}
-		f.raw = make([]byte, directoryHeaderLen+int(hdr.FilenameLen)+int(hdr.ExtraLen)+int(hdr.CommentLen))
+		f.raw = make([]byte, rawLen)
 		copy(f.raw, cd)
 		cd = cd[directoryHeaderLen:]
 		f.Name, cd = string(cd[:int(hdr.FilenameLen)]), cd[int(hdr.FilenameLen):]
@@ -159,6 +168,9 @@ func Read(r io.ReaderAt, size int64) (*Directory, error) {
 	loc, err := FindDirectory(r, size)
 	if err != nil {
 		return nil, err
+	}
+	if loc < 0 || loc > size {
+		return nil, errors.New("zip central directory offset out of bounds")
 	}
 	cd := make([]byte, size-loc)
 	if _, err := r.ReadAt(cd, loc); err != nil {
